@@ -44,8 +44,18 @@ namespace vc
         return x - std::floor(x);
     }
     // fixed, seed-independent default stream (additive golden-ratio recurrence; position-indexed, so replay is exact)
+    // salts >= 1000 select a hashed (splitmix64) stream instead: position-indexed as well, but without the lattice structure of
+    // the additive recurrence (XXL's layered search starves on the latter: it creates no states at all)
     inline double defU(size_t i, unsigned salt = 0)
     {
+        if (salt >= 1000)
+        {
+            uint64_t z = (uint64_t)i * 0x9E3779B97F4A7C15ull + (uint64_t)salt * 0xD1B54A32D192ED03ull;
+            z = (z ^ (z >> 30)) * 0xBF58476D1CE4E5B9ull;
+            z = (z ^ (z >> 27)) * 0x94D049BB133111EBull;
+            z ^= z >> 31;
+            return (double)(z >> 11) * (1.0 / 9007199254740992.0);
+        }
         return frac((double)(i + 1) * 0.6180339887498949 + salt * 0.7548776662466927);
     }
     // inverse normal CDF (Acklam), enough for a plausible default Gaussian stream
